@@ -155,8 +155,17 @@ class Ctx:
         if rel in self._modenv:
             return self._modenv[rel]
         m = self.repo.module(rel)
-        pe = self.pe(rel, unroll=unroll)
-        body = [s for s in m.tree.body if not _is_main_guard(s)]
+        self._modenv[rel] = {}     # cycle guard
+        gv = {}
+        for name in m.imports:
+            r = self.repo.resolve_name(rel, name)
+            if r is not None and r[1] is None and r[0] in self.repo.modules and r[0] != rel:
+                # an imported repo module: expose its folded constants as attributes
+                other = self.module_env(r[0], unroll)
+                attrs = tuple(sorted(((k, v) for k, v in other.items() if T.concrete(v)), key=lambda kv: kv[0]))
+                gv[name] = ('obj', ('g', name), attrs)
+        pe = self.pe(rel, unroll=unroll, global_values=gv)
+        body = [s for s in m.tree.body if not _is_main_guard(s) and not isinstance(s, (ast.Import, ast.ImportFrom))]
         env = {}
         try:
             pe.run_block(body, env)
